@@ -135,6 +135,11 @@ void cv_sparse_digit_cells(CellVec *c, int res, int quick) {
             uint64_t h = base | ((uint64_t)d << (3 * (15 - p)));
             if (isValidCell(h)) cv_push(c, h);
         }
+        /* two non-zero digits far apart: one near the top, one at the bottom, centre digits in between */
+        for (int p = 1; p <= 3 && p < res; p++) for (int q = res; q >= res - 1 && q > p; q--) for (int t = 0; t < (quick ? 1 : 3); t++) {
+            uint64_t h = base | ((uint64_t)(1 + vt_randn(6)) << (3 * (15 - p))) | ((uint64_t)(1 + vt_randn(6)) << (3 * (15 - q)));
+            if (isValidCell(h)) cv_push(c, h);
+        }
     }
     for (int k = 0; k < (quick ? 4 : 20) && res > 0; k++) {
         int pr = (int)vt_randn(res); H3Index a = vt_random_cell(pr), ch;
